@@ -68,7 +68,7 @@ def build_spec(case):
         used.add((g, n))
         t = ptypes[(i + case['tshift']) % len(ptypes)]
         ext = v >= 4 and (i * 7 + case['tshift']) % case.get('extmod', 5) == 0
-        param_toc.append({'group': g, 'name': n, 'type': t, 'ro': (i + case['tshift']) % 4 == 1, 'extended': ext,
+        param_toc.append({'group': g, 'name': n, 'type': t, 'ro': (i + case['tshift']) % 4 == 1, 'core': (i + case['tshift']) % 3 == 1, 'extended': ext,
                           'persistent': ext and (i + case['tshift']) % 2 == 0, 'value': 1, 'default': 0})
     # de-duplicate log names too
     used = set()
